@@ -14,9 +14,24 @@ package value
 
 /*@ template for (self Value*) Fields
     serves C02, C09
-    trusted
+    assume-safety
     modifies nothing
     ensures ret1 == nil ==> ret0 != nil
+    ensures ret1 != nil ==> *ret1 != nil
+@*/
+
+/*@ template for (self Value*) Display
+    serves C18, C02
+    trusted
+    modifies nothing
+    ensures ret1 != nil ==> *ret1 != nil
+@*/
+
+/*@ template for (self Value*) IsEqual
+    serves C18, C02
+    trusted
+    modifies nothing
+    requires other != nil && other.Kind() == self.Kind()
     ensures ret1 != nil ==> *ret1 != nil
 @*/
 
@@ -60,3 +75,477 @@ func inBounds(i int64, n int) bool { return 0 <= wrapIndex(i, n) && wrapIndex(i,
     ensures @string-element ret1 == nil && (*base).Kind() == StringValueKind ==> inBounds((*index).(ValueInt).Inner, len((*base).(ValueString).Inner))
     ensures @result ret1 == nil ==> ret0 != nil
 @*/
+
+
+
+// BEGIN GENERATED members (tools/gen_member_contracts.py; edit the table there)
+
+// Every member the analyzer offers on a type exists on every value of that type.
+
+/*@ func (self ValueInt) Fields
+    serves C18, C02
+    ensures @has-every-offered-member ret1 == nil ==> haskey(ret0, "to_range") && haskey(ret0, "to_string")
+    ensures @no-interrupt ret1 == nil
+@*/
+
+/*@ func (self ValueFloat) Fields
+    serves C18, C02
+    ensures @has-every-offered-member ret1 == nil ==> haskey(ret0, "is_int") && haskey(ret0, "round") && haskey(ret0, "to_string") && haskey(ret0, "trunc")
+    ensures @no-interrupt ret1 == nil
+@*/
+
+/*@ func (self ValueBool) Fields
+    serves C18, C02
+    ensures @has-every-offered-member ret1 == nil ==> haskey(ret0, "to_string")
+    ensures @no-interrupt ret1 == nil
+@*/
+
+/*@ func (self ValueString) Fields
+    serves C18, C02
+    ensures @has-every-offered-member ret1 == nil ==> haskey(ret0, "compare_lev") && haskey(ret0, "contains") && haskey(ret0, "len") && haskey(ret0, "parse_bool") && haskey(ret0, "parse_float") && haskey(ret0, "parse_int") && haskey(ret0, "parse_json") && haskey(ret0, "repeat") && haskey(ret0, "replace") && haskey(ret0, "split") && haskey(ret0, "starts_with") && haskey(ret0, "substring") && haskey(ret0, "to_lower") && haskey(ret0, "to_upper")
+    ensures @no-interrupt ret1 == nil
+@*/
+
+/*@ func (self ValueRange) Fields
+    serves C18, C02
+    ensures @has-every-offered-member ret1 == nil ==> haskey(ret0, "diff") && haskey(ret0, "end") && haskey(ret0, "rev") && haskey(ret0, "start") && haskey(ret0, "to_string")
+    ensures @no-interrupt ret1 == nil
+@*/
+
+/*@ func (self ValueList) Fields
+    serves C18, C02
+    ensures @has-every-offered-member ret1 == nil ==> haskey(ret0, "concat") && haskey(ret0, "contains") && haskey(ret0, "insert") && haskey(ret0, "join") && haskey(ret0, "last") && haskey(ret0, "len") && haskey(ret0, "pop") && haskey(ret0, "pop_front") && haskey(ret0, "push") && haskey(ret0, "push_front") && haskey(ret0, "remove") && haskey(ret0, "to_json") && haskey(ret0, "to_json_indent") && haskey(ret0, "to_string")
+    ensures @no-interrupt ret1 == nil
+@*/
+
+/*@ func (self ValueAnyObject) Fields
+    serves C18, C02
+    ensures @has-every-offered-member ret1 == nil ==> haskey(ret0, "get") && haskey(ret0, "get_type") && haskey(ret0, "keys") && haskey(ret0, "set") && haskey(ret0, "to_json") && haskey(ret0, "to_json_indent") && haskey(ret0, "to_string")
+    ensures @no-interrupt ret1 == nil
+@*/
+
+/*@ func (self ValueObject) Fields
+    serves C18, C02
+    ensures @has-every-offered-member ret1 == nil ==> haskey(ret0, "keys") && haskey(ret0, "to_json") && haskey(ret0, "to_json_indent")
+    ensures @no-interrupt ret1 == nil
+    loop 1 invariant fresh(fields) && haskey(fields, "keys") && haskey(fields, "to_json") && haskey(fields, "to_json_indent")
+@*/
+
+/*@ func (self ValueOption) Fields
+    serves C18, C02
+    ensures @has-every-offered-member ret1 == nil ==> haskey(ret0, "expect") && haskey(ret0, "is_none") && haskey(ret0, "is_some") && haskey(ret0, "to_string") && haskey(ret0, "unwrap") && haskey(ret0, "unwrap_or")
+    ensures @no-interrupt ret1 == nil
+@*/
+
+// END GENERATED members
+
+// BEGIN GENERATED member closures (tools/gen_member_contracts.py)
+
+// argIs: the k-th argument of a builtin member call is present and of the kind the analyzer advertises.
+func argIs(args []Value, k int, kind ValueKind) bool {
+	return len(args) > k && args[k] != nil && args[k].Kind() == kind
+}
+
+// argAny: the k-th argument is present.
+func argAny(args []Value, k int) bool { return len(args) > k && args[k] != nil }
+
+// resIs: a member returned a value of the advertised kind.
+func resIs(r *Value, kind ValueKind) bool { return r != nil && *r != nil && (*r).Kind() == kind }
+
+// resAny: a member returned a value.
+func resAny(r *Value) bool { return r != nil && *r != nil }
+
+// selfOK: the receiver of a member call is a well-formed value (what every
+// constructor of the value library establishes).
+func selfOK(v Value) bool {
+	switch x := v.(type) {
+	case ValueList:
+		return x.Values != nil
+	case ValueOption:
+		return x.Inner == nil || *x.Inner != nil
+	case ValueRange:
+		if x.Start == nil || x.End == nil || *x.Start == nil || *x.End == nil {
+			return false
+		}
+		_, ok1 := (*x.Start).(ValueInt)
+		_, ok2 := (*x.End).(ValueInt)
+		return ok1 && ok2
+	case ValueAnyObject:
+		return x.FieldsInternal != nil
+	case ValueObject:
+		return x.FieldsInternal != nil
+	}
+	return v != nil
+}
+
+// insertable: positions 0..len are valid for insert (len appends).
+func insertableAt(i int64, n int) bool { return 0 <= wrapIndex(i, n) && wrapIndex(i, n) <= int64(n) }
+
+// sortableKind: the element kinds the analyzer offers `sort` for.
+func sortableKind(k ValueKind) bool { return k == IntValueKind || k == FloatValueKind || k == StringValueKind }
+
+/*@ func (self ValueInt) Fields["to_range"]
+    serves C18, C02
+    requires selfOK(self)
+    ensures @typed-result ret1 == nil ==> resIs(ret0, RangeValueKind)
+    ensures @interrupt-or-value ret1 != nil ==> *ret1 != nil
+@*/
+
+/*@ func (self ValueInt) Fields["to_string"]
+    serves C18, C02
+    requires selfOK(self)
+    ensures @typed-result ret1 == nil ==> resIs(ret0, StringValueKind)
+    ensures @interrupt-or-value ret1 != nil ==> *ret1 != nil
+@*/
+
+/*@ func (self ValueFloat) Fields["is_int"]
+    serves C18, C02
+    requires selfOK(self)
+    ensures @typed-result ret1 == nil ==> resIs(ret0, BoolValueKind)
+    ensures @interrupt-or-value ret1 != nil ==> *ret1 != nil
+@*/
+
+/*@ func (self ValueFloat) Fields["round"]
+    serves C18, C02
+    requires selfOK(self)
+    ensures @typed-result ret1 == nil ==> resIs(ret0, IntValueKind)
+    ensures @interrupt-or-value ret1 != nil ==> *ret1 != nil
+@*/
+
+/*@ func (self ValueFloat) Fields["to_string"]
+    serves C18, C02
+    requires selfOK(self)
+    ensures @typed-result ret1 == nil ==> resIs(ret0, StringValueKind)
+    ensures @interrupt-or-value ret1 != nil ==> *ret1 != nil
+@*/
+
+/*@ func (self ValueFloat) Fields["trunc"]
+    serves C18, C02
+    requires selfOK(self)
+    ensures @typed-result ret1 == nil ==> resIs(ret0, IntValueKind)
+    ensures @interrupt-or-value ret1 != nil ==> *ret1 != nil
+@*/
+
+/*@ func (self ValueBool) Fields["to_string"]
+    serves C18, C02
+    requires selfOK(self)
+    ensures @typed-result ret1 == nil ==> resIs(ret0, StringValueKind)
+    ensures @interrupt-or-value ret1 != nil ==> *ret1 != nil
+@*/
+
+/*@ func (self ValueString) Fields["compare_lev"]
+    serves C18, C02
+    requires selfOK(self) && argIs(args, 0, StringValueKind)
+    ensures @typed-result ret1 == nil ==> resIs(ret0, IntValueKind)
+    ensures @interrupt-or-value ret1 != nil ==> *ret1 != nil
+@*/
+
+/*@ func (self ValueString) Fields["contains"]
+    serves C18, C02
+    requires selfOK(self) && argIs(args, 0, StringValueKind)
+    ensures @typed-result ret1 == nil ==> resIs(ret0, BoolValueKind)
+    ensures @interrupt-or-value ret1 != nil ==> *ret1 != nil
+@*/
+
+/*@ func (self ValueString) Fields["len"]
+    serves C18, C02
+    requires selfOK(self)
+    ensures @typed-result ret1 == nil ==> resIs(ret0, IntValueKind)
+    ensures @interrupt-or-value ret1 != nil ==> *ret1 != nil
+@*/
+
+/*@ func (self ValueString) Fields["parse_bool"]
+    serves C18, C02
+    requires selfOK(self)
+    ensures @typed-result ret1 == nil ==> resIs(ret0, BoolValueKind)
+    ensures @interrupt-or-value ret1 != nil ==> *ret1 != nil
+@*/
+
+/*@ func (self ValueString) Fields["parse_float"]
+    serves C18, C02
+    requires selfOK(self)
+    ensures @typed-result ret1 == nil ==> resIs(ret0, FloatValueKind)
+    ensures @interrupt-or-value ret1 != nil ==> *ret1 != nil
+@*/
+
+/*@ func (self ValueString) Fields["parse_int"]
+    serves C18, C02
+    requires selfOK(self)
+    ensures @typed-result ret1 == nil ==> resIs(ret0, IntValueKind)
+    ensures @interrupt-or-value ret1 != nil ==> *ret1 != nil
+@*/
+
+/*@ func (self ValueString) Fields["parse_json"]
+    serves C18, C02
+    requires selfOK(self)
+    ensures @typed-result ret1 == nil ==> resAny(ret0)
+    ensures @interrupt-or-value ret1 != nil ==> *ret1 != nil
+@*/
+
+/*@ func (self ValueString) Fields["repeat"]
+    serves C18, C02
+    requires selfOK(self) && argIs(args, 0, IntValueKind)
+    ensures @typed-result ret1 == nil ==> resIs(ret0, StringValueKind)
+    ensures @interrupt-or-value ret1 != nil ==> *ret1 != nil
+@*/
+
+/*@ func (self ValueString) Fields["replace"]
+    serves C18, C02
+    requires selfOK(self) && argIs(args, 0, StringValueKind) && argIs(args, 1, StringValueKind)
+    ensures @typed-result ret1 == nil ==> resIs(ret0, StringValueKind)
+    ensures @interrupt-or-value ret1 != nil ==> *ret1 != nil
+@*/
+
+/*@ func (self ValueString) Fields["split"]
+    serves C18, C02
+    requires selfOK(self) && argIs(args, 0, StringValueKind)
+    ensures @typed-result ret1 == nil ==> resIs(ret0, ListValueKind)
+    ensures @interrupt-or-value ret1 != nil ==> *ret1 != nil
+@*/
+
+/*@ func (self ValueString) Fields["starts_with"]
+    serves C18, C02
+    requires selfOK(self) && argIs(args, 0, StringValueKind)
+    ensures @typed-result ret1 == nil ==> resIs(ret0, BoolValueKind)
+    ensures @interrupt-or-value ret1 != nil ==> *ret1 != nil
+@*/
+
+/*@ func (self ValueString) Fields["substring"]
+    serves C18, C02
+    requires selfOK(self) && argIs(args, 0, IntValueKind)
+    ensures @typed-result ret1 == nil ==> resIs(ret0, StringValueKind)
+    ensures @interrupt-or-value ret1 != nil ==> *ret1 != nil
+@*/
+
+/*@ func (self ValueString) Fields["to_lower"]
+    serves C18, C02
+    requires selfOK(self)
+    ensures @typed-result ret1 == nil ==> resIs(ret0, StringValueKind)
+    ensures @interrupt-or-value ret1 != nil ==> *ret1 != nil
+@*/
+
+/*@ func (self ValueString) Fields["to_upper"]
+    serves C18, C02
+    requires selfOK(self)
+    ensures @typed-result ret1 == nil ==> resIs(ret0, StringValueKind)
+    ensures @interrupt-or-value ret1 != nil ==> *ret1 != nil
+@*/
+
+/*@ func (self ValueRange) Fields["diff"]
+    serves C18, C02
+    requires selfOK(self)
+    ensures @typed-result ret1 == nil ==> resIs(ret0, IntValueKind)
+    ensures @interrupt-or-value ret1 != nil ==> *ret1 != nil
+@*/
+
+/*@ func (self ValueRange) Fields["rev"]
+    serves C18, C02
+    requires selfOK(self)
+    ensures @typed-result ret1 == nil ==> resIs(ret0, RangeValueKind)
+    ensures @interrupt-or-value ret1 != nil ==> *ret1 != nil
+@*/
+
+/*@ func (self ValueRange) Fields["to_string"]
+    serves C18, C02
+    requires selfOK(self)
+    ensures @typed-result ret1 == nil ==> resIs(ret0, StringValueKind)
+    ensures @interrupt-or-value ret1 != nil ==> *ret1 != nil
+@*/
+
+/*@ func (self ValueList) Fields["concat"]
+    serves C18, C02
+    requires selfOK(self) && argIs(args, 0, ListValueKind) && selfOK(args[0])
+    ensures @typed-result ret1 == nil ==> resIs(ret0, NullValueKind)
+    ensures @interrupt-or-value ret1 != nil ==> *ret1 != nil
+@*/
+
+/*@ func (self ValueList) Fields["contains"]
+    serves C18, C02
+    assumepre IsEqual
+    requires selfOK(self) && argAny(args, 0)
+    ensures @typed-result ret1 == nil ==> resIs(ret0, BoolValueKind)
+    ensures @interrupt-or-value ret1 != nil ==> *ret1 != nil
+@*/
+
+/*@ func (self ValueList) Fields["insert"]
+    serves C18, C02
+    ensures @out-of-range !insertableAt(args[0].(ValueInt).Inner, old(len(*self.Values))) ==> ret1 != nil && len(*self.Values) == old(len(*self.Values))
+    ensures @in-range insertableAt(args[0].(ValueInt).Inner, old(len(*self.Values))) ==> ret1 == nil && len(*self.Values) == old(len(*self.Values))+1
+    ensures @placed ret1 == nil ==> (*self.Values)[wrapIndex(args[0].(ValueInt).Inner, old(len(*self.Values)))] != nil && *(*self.Values)[wrapIndex(args[0].(ValueInt).Inner, old(len(*self.Values)))] == old(args[1])
+    ensures @prefix-kept ret1 == nil ==> forall j in 0..wrapIndex(args[0].(ValueInt).Inner, old(len(*self.Values))) :: (*self.Values)[j] == old((*self.Values)[j])
+    ensures @suffix-shifted ret1 == nil ==> forall j in wrapIndex(args[0].(ValueInt).Inner, old(len(*self.Values)))+1..len(*self.Values) :: (*self.Values)[j] == old((*self.Values)[j-1])
+    requires selfOK(self) && argIs(args, 0, IntValueKind) && argAny(args, 1)
+    ensures @typed-result ret1 == nil ==> resIs(ret0, NullValueKind)
+    ensures @interrupt-or-value ret1 != nil ==> *ret1 != nil
+@*/
+
+/*@ func (self ValueList) Fields["join"]
+    serves C18, C02
+    requires selfOK(self) && argIs(args, 0, StringValueKind)
+    ensures @typed-result ret1 == nil ==> resIs(ret0, StringValueKind)
+    ensures @interrupt-or-value ret1 != nil ==> *ret1 != nil
+@*/
+
+/*@ func (self ValueList) Fields["last"]
+    serves C18, C02
+    requires selfOK(self)
+    ensures @typed-result ret1 == nil ==> resIs(ret0, OptionValueKind)
+    ensures @interrupt-or-value ret1 != nil ==> *ret1 != nil
+@*/
+
+/*@ func (self ValueList) Fields["len"]
+    serves C18, C02
+    requires selfOK(self)
+    ensures @typed-result ret1 == nil ==> resIs(ret0, IntValueKind)
+    ensures @interrupt-or-value ret1 != nil ==> *ret1 != nil
+@*/
+
+/*@ func (self ValueList) Fields["pop"]
+    serves C18, C02
+    requires selfOK(self)
+    ensures @typed-result ret1 == nil ==> resIs(ret0, OptionValueKind)
+    ensures @interrupt-or-value ret1 != nil ==> *ret1 != nil
+@*/
+
+/*@ func (self ValueList) Fields["pop_front"]
+    serves C18, C02
+    requires selfOK(self)
+    ensures @typed-result ret1 == nil ==> resIs(ret0, OptionValueKind)
+    ensures @interrupt-or-value ret1 != nil ==> *ret1 != nil
+@*/
+
+/*@ func (self ValueList) Fields["push"]
+    serves C18, C02
+    requires selfOK(self) && argAny(args, 0)
+    ensures @typed-result ret1 == nil ==> resIs(ret0, NullValueKind)
+    ensures @interrupt-or-value ret1 != nil ==> *ret1 != nil
+@*/
+
+/*@ func (self ValueList) Fields["push_front"]
+    serves C18, C02
+    requires selfOK(self) && argAny(args, 0)
+    ensures @typed-result ret1 == nil ==> resIs(ret0, NullValueKind)
+    ensures @interrupt-or-value ret1 != nil ==> *ret1 != nil
+@*/
+
+/*@ func (self ValueList) Fields["remove"]
+    serves C18, C02
+    ensures @out-of-range !inBounds(args[0].(ValueInt).Inner, old(len(*self.Values))) ==> ret1 != nil && len(*self.Values) == old(len(*self.Values))
+    ensures @in-range inBounds(args[0].(ValueInt).Inner, old(len(*self.Values))) ==> ret1 == nil && len(*self.Values) == old(len(*self.Values))-1
+    ensures @prefix-kept ret1 == nil ==> forall j in 0..wrapIndex(args[0].(ValueInt).Inner, old(len(*self.Values))) :: (*self.Values)[j] == old((*self.Values)[j])
+    ensures @suffix-shifted ret1 == nil ==> forall j in wrapIndex(args[0].(ValueInt).Inner, old(len(*self.Values)))..len(*self.Values) :: (*self.Values)[j] == old((*self.Values)[j+1])
+    requires selfOK(self) && argIs(args, 0, IntValueKind)
+    ensures @typed-result ret1 == nil ==> resIs(ret0, NullValueKind)
+    ensures @interrupt-or-value ret1 != nil ==> *ret1 != nil
+@*/
+
+/*@ func (self ValueList) Fields["sort"]
+    serves C18, C02
+    assumepre insertionSortInt, insertionSortFloat, insertionSortString
+    requires selfOK(self) && (len(*self.Values) == 0 || ((*self.Values)[0] != nil && *(*self.Values)[0] != nil && sortableKind((*(*self.Values)[0]).Kind())))
+    ensures @typed-result ret1 == nil ==> resIs(ret0, NullValueKind)
+    ensures @interrupt-or-value ret1 != nil ==> *ret1 != nil
+@*/
+
+/*@ func (self ValueList) Fields["to_string"]
+    serves C18, C02
+    requires selfOK(self)
+    ensures @typed-result ret1 == nil ==> resIs(ret0, StringValueKind)
+    ensures @interrupt-or-value ret1 != nil ==> *ret1 != nil
+@*/
+
+/*@ func (self ValueAnyObject) Fields["get"]
+    serves C18, C02
+    requires selfOK(self) && argIs(args, 0, StringValueKind)
+    ensures @typed-result ret1 == nil ==> resIs(ret0, OptionValueKind)
+    ensures @interrupt-or-value ret1 != nil ==> *ret1 != nil
+@*/
+
+/*@ func (self ValueAnyObject) Fields["get_type"]
+    serves C18, C02
+    assume-unreachable Unsupported type
+    requires selfOK(self) && argIs(args, 0, StringValueKind)
+    ensures @typed-result ret1 == nil ==> resIs(ret0, StringValueKind)
+    ensures @interrupt-or-value ret1 != nil ==> *ret1 != nil
+@*/
+
+/*@ func (self ValueAnyObject) Fields["keys"]
+    serves C18, C02
+    requires selfOK(self)
+    ensures @typed-result ret1 == nil ==> resIs(ret0, ListValueKind)
+    ensures @interrupt-or-value ret1 != nil ==> *ret1 != nil
+@*/
+
+/*@ func (self ValueAnyObject) Fields["set"]
+    serves C18, C02
+    requires selfOK(self) && argIs(args, 0, StringValueKind) && argAny(args, 1)
+    ensures @typed-result ret1 == nil ==> resIs(ret0, NullValueKind)
+    ensures @interrupt-or-value ret1 != nil ==> *ret1 != nil
+@*/
+
+/*@ func (self ValueAnyObject) Fields["to_string"]
+    serves C18, C02
+    requires selfOK(self)
+    ensures @typed-result ret1 == nil ==> resIs(ret0, StringValueKind)
+    ensures @interrupt-or-value ret1 != nil ==> *ret1 != nil
+@*/
+
+/*@ func (self ValueObject) Fields["keys"]
+    serves C18, C02
+    requires selfOK(self)
+    ensures @typed-result ret1 == nil ==> resIs(ret0, ListValueKind)
+    ensures @interrupt-or-value ret1 != nil ==> *ret1 != nil
+@*/
+
+/*@ func (self ValueOption) Fields["expect"]
+    serves C18, C02
+    requires selfOK(self) && argIs(args, 0, StringValueKind)
+    ensures @typed-result ret1 == nil ==> resAny(ret0)
+    ensures @interrupt-or-value ret1 != nil ==> *ret1 != nil
+@*/
+
+/*@ func (self ValueOption) Fields["is_none"]
+    serves C18, C02
+    requires selfOK(self)
+    ensures @typed-result ret1 == nil ==> resIs(ret0, BoolValueKind)
+    ensures @interrupt-or-value ret1 != nil ==> *ret1 != nil
+@*/
+
+/*@ func (self ValueOption) Fields["is_some"]
+    serves C18, C02
+    requires selfOK(self)
+    ensures @typed-result ret1 == nil ==> resIs(ret0, BoolValueKind)
+    ensures @interrupt-or-value ret1 != nil ==> *ret1 != nil
+@*/
+
+/*@ func (self ValueOption) Fields["to_string"]
+    serves C18, C02
+    requires selfOK(self)
+    ensures @typed-result ret1 == nil ==> resIs(ret0, StringValueKind)
+    ensures @interrupt-or-value ret1 != nil ==> *ret1 != nil
+@*/
+
+/*@ func (self ValueOption) Fields["unwrap"]
+    serves C18, C02
+    requires selfOK(self)
+    ensures @typed-result ret1 == nil ==> resAny(ret0)
+    ensures @interrupt-or-value ret1 != nil ==> *ret1 != nil
+@*/
+
+/*@ func (self ValueOption) Fields["unwrap_or"]
+    serves C18, C02
+    requires selfOK(self) && argAny(args, 0)
+    ensures @typed-result ret1 == nil ==> resAny(ret0)
+    ensures @interrupt-or-value ret1 != nil ==> *ret1 != nil
+@*/
+
+// JSON decoding is outside the member contracts (C12): assumed to return a value or an interrupt.
+
+/*@ func unmarshalValue
+    serves C18
+    trusted
+    ensures ret1 == nil ==> resAny(ret0)
+    ensures ret1 != nil ==> *ret1 != nil
+@*/
+
+// END GENERATED member closures
